@@ -12,6 +12,11 @@ import (
 )
 
 const (
+	nilSlice = "(mk-slice 0 0 0 0)"
+	nilIface = "(mk-iface 0 0)"
+)
+
+const (
 	sInt   = "Int"
 	sBool  = "Bool"
 	sSlice = "Slice"
@@ -48,8 +53,8 @@ var preludeChunks = []preludeChunk{
 	{[]string{"Slice","declare-datatypes","mk-slice","s-arr","s-off","s-len","s-cap"}, `(declare-datatypes ((Slice 0)) (((mk-slice (s-arr Int) (s-off Int) (s-len Int) (s-cap Int)))))`},
 	{[]string{"Iface","declare-datatypes","mk-iface","i-tag","i-val"}, `(declare-datatypes ((Iface 0)) (((mk-iface (i-tag Int) (i-val Int)))))`},
 	{[]string{"Flt","declare-datatypes","fin","fv","nan","pinf","ninf"}, `(declare-datatypes ((Flt 0)) (((fin (fv Real)) (nan) (pinf) (ninf))))`},
-	{[]string{"nil-slice"}, `(define-fun nil-slice () Slice (mk-slice 0 0 0 0))`},
-	{[]string{"nil-iface"}, `(define-fun nil-iface () Iface (mk-iface 0 0))`},
+	{[]string{nilSlice}, `(define-fun nil-slice () Slice (mk-slice 0 0 0 0))`},
+	{[]string{nilIface}, `(define-fun nil-iface () Iface (mk-iface 0 0))`},
 	{[]string{"wrap64"}, `(define-fun wrap64 ((x Int)) Int (ite (and (<= (- 9223372036854775808) x) (<= x 9223372036854775807)) x (- (mod (+ x 9223372036854775808) 18446744073709551616) 9223372036854775808)))`},
 	{[]string{"wrap32"}, `(define-fun wrap32 ((x Int)) Int (ite (and (<= (- 2147483648) x) (<= x 2147483647)) x (- (mod (+ x 2147483648) 4294967296) 2147483648)))`},
 	{[]string{"wrap16"}, `(define-fun wrap16 ((x Int)) Int (- (mod (+ x 32768) 65536) 32768))`},
@@ -253,9 +258,9 @@ func (ty *Types) Zero(t types.Type) string {
 	case *types.Pointer, *types.Map, *types.Chan, *types.Signature:
 		return "0"
 	case *types.Slice:
-		return "nil-slice"
+		return nilSlice
 	case *types.Interface:
-		return "nil-iface"
+		return nilIface
 	case *types.Struct:
 		si := ty.structInfoOf(t)
 		if u.NumFields() == 0 {
